@@ -44,13 +44,11 @@
 #include "nmtools/array/array/roll.hpp"
 #include "nmtools/array/array/pad.hpp"
 #include "nmtools/array/array/take.hpp"
-// array/slice.hpp declares array::apply_slice(array, tuple_t<slices_t...>), which ADL prefers over view::apply_slice in
-// the unqualified calls inside view::flip / view::slice / reduce_t / accumulate_t / matmul_t (known finding
-// adl.eager-apply_slice: view::flip silently becomes eager, view::matmul reads dangling pointers).  Only the TU built
-// with C10_EAGER_SLICE includes it (and compiles none of those ops); elsewhere eager slicing goes through array::eval.
-#ifdef C10_EAGER_SLICE
+// array/slice.hpp declares array::apply_slice(array, tuple_t<slices_t...>), which ADL used to prefer over
+// view::apply_slice in the unqualified calls inside view::flip / view::slice / view::split / reduce_t / accumulate_t /
+// matmul_t (repaired defect adl.eager-apply_slice: view::flip silently became eager, view::matmul read dangling
+// pointers).  It is included in every TU on purpose: all compositions run with the eager header present.
 #include "nmtools/array/array/slice.hpp"
-#endif
 #include "nmtools/array/array/broadcast_to.hpp"
 #include "nmtools/array/array/ufuncs/add.hpp"
 #include "nmtools/array/array/ufuncs/multiply.hpp"
@@ -104,11 +102,7 @@ std::string apply_op(const X& x, const Op& op, const P& p, bool eager, K k) {
     C10_CASE(ROLL,        int s = op.i(0); int ax = op.i(1); C10_BOTH(roll, x, s, ax))
     C10_CASE(PAD,         auto w = op.iv(0); C10_BOTH(pad, x, w, (elem_t)-1))
     C10_CASE(TAKE,        auto ind = op.iv(0); int ax = op.i(1); C10_BOTH(take, x, ind, ax))
-#ifdef C10_EAGER_SLICE
     C10_CASE(SLICE,       auto sl = slices_of(op); C10_BOTH(apply_slice, x, sl))
-#else
-    C10_CASE(SLICE,       auto sl = slices_of(op); return eager ? k(na::eval(view::apply_slice(x, sl), nm::None, nm::None, Row)) : k(view::apply_slice(x, sl));)
-#endif
     C10_CASE(BROADCAST_TO, auto s = op.uv(0); C10_BOTH(broadcast_to, x, s))
     C10_CASE(ADDB,        C10_BOTH(add, x, p.b))
     C10_CASE(MULB,        C10_BOTH(multiply, p.b, x))
